@@ -33,8 +33,9 @@ def cases(draw, tier="quick"):
     recs = draw(
         S.record_sets(
             delimiter=d,
-            max_records=9 if big else 6,
-            max_syn=6 if big else 4,
+            # thorough: one case in six is a large converter (up to 25 records, 10 extra synonyms per side)
+            max_records=(25 if draw(st.integers(0, 5)) == 0 else 9) if big else 6,
+            max_syn=(10 if draw(st.integers(0, 5)) == 0 else 6) if big else 4,
             prefix_no_delimiter=draw(st.booleans()),
         )
     )
